@@ -66,7 +66,9 @@ func ProfileSyntax() *Profile {
 	return &Profile{
 		Idents: []string{"a", "b", "c", "x1", "_", "_v", "msg", "é", "a b", "1x", "if", "IN", "ü_1", "注", "\ufeffa", "\ufeff", "\u200bq", "\U0001F600",
 			// words that start or end like a reserved word
-			"identifiers", "identifier_id", "IdentifierCount", "iffy", "format", "inner", "elsewhere", "breaks", "continued", "truely", "nilx", "nullable", "infx", "nanx", "in1", "xif", "bfor", "_in", "elif2", "Trueish"},
+			"identifiers", "identifier_id", "IdentifierCount", "iffy", "format", "inner", "elsewhere", "breaks", "continued", "truely", "nilx", "nullable", "infx", "nanx", "in1", "xif", "bfor", "_in", "elif2", "Trueish",
+			// a reserved word directly followed by a character beyond ASCII
+			"for\u00eat", "str\u00f6mung", "int\u00e9r\u00eat", "nil\u00fcfer", "in\u00f6n\u00fc", "inf\u00e9", "if\u00e9", "elif\u00e9", "break\u00f1", "true\u00e9", "FOR\u00eat", "else\u6ce8", "continue\u00e9", "nan\u00e9", "false\u00df", "list\u00f3n", "map\u00e9", "bool\u00e9", "float\u00e9"},
 		Funcs:    []string{"f", "g", "len", "add_key", "my fn"},
 		Strs:     []string{"", "a", "ab", "a\"b", "it's", "é", "\n", "\\", "#", "x y", "\x00", "k"},
 		MaxDepth: 5,
